@@ -322,3 +322,65 @@ def r5(rr, repo):
     cmod, cls = repo.find(f'{FR}::Frame')
     other = [c for c in q.calls_in(cls, into_functions=True) if U(c.func) == 'cv2.imdecode' and enclosing_function(c) is not dec]
     rr.ob('no other place in Frame decodes an image', not other, fmod, other[0] if other else cls, key='decode-single-site')
+
+
+@rule('C09.R6', "the transport puts a topic's message back together as it was handed in: the publisher moves element 0 into the envelope ('xtra') and sends the remaining elements as the frames after the "
+                "envelope; the receiver rebuilds [envelope['xtra'], *frames after the envelope] - same key, same split point, compact ASCII JSON for the envelope on both sides")
+def r6(rr, repo):
+    from .zmq import anchors
+    za = anchors(repo)
+    # publisher side: the data publish inside the loop over topicmsgs.items()
+    pubs = []
+    for loop in [n for n in walk_scope(za.S_maybe) if isinstance(n, ast.For) and U(n.iter).endswith('.items()') and isinstance(n.target, ast.Tuple) and len(n.target.elts) == 2]:
+        tname, mname = [U(e) for e in loop.target.elts]
+        sends = [c for c in ast.walk(loop) if isinstance(c, ast.Call) and isinstance(c.func, ast.Attribute) and c.func.attr == 'send_multipart']
+        if not sends:
+            continue
+        # what is sent: a name bound in the loop to a list display
+        binds = [n for n in ast.walk(loop) if isinstance(n, ast.Assign) and len(n.targets) == 1 and isinstance(n.targets[0], ast.Name) and isinstance(n.value, ast.List)]
+        xtra = [n for n in ast.walk(loop) if isinstance(n, ast.Assign) and len(n.targets) == 1 and isinstance(n.targets[0], ast.Subscript) and q.const_str(n.targets[0].slice)]
+        pubs.append((loop, tname, mname, sends, binds, xtra))
+    if len(pubs) != 1:
+        raise Unresolved(f'{za.mod.relpath}: send_maybe: expected one publishing loop over the topic messages, found {len(pubs)}')
+    loop, tname, mname, sends, binds, xtra = pubs[0]
+    key = None
+    for n in xtra:
+        if U(n.value) == f'{mname}[0]':
+            key = n.targets[0].slice.value
+            env = U(n.targets[0].value)
+            rr.holds(f'publisher: element 0 of the message travels in the envelope under {key!r}', za.mod, n, key='pub-xtra')
+    if key is None:
+        rr.violated("publisher: element 0 of a topic's message (the image header / small metadata) is not put into the envelope: it never reaches the consumer", za.mod, loop, key='pub-xtra')
+        return
+    wire = None
+    for b in binds:
+        if U(sends[0].args[0]) == b.targets[0].id or (isinstance(sends[0].args[0], ast.Name) and sends[0].args[0].id == b.targets[0].id):
+            wire = b
+    if wire is None:
+        rr.unresolved('publisher: cannot identify the list that is sent', za.mod, sends[0], key='pub-wire')
+        return
+    el = wire.value.elts
+    ok = len(el) == 3 and isinstance(el[2], ast.Starred) and U(el[2].value) == f'{mname}[1:]' and 'json_dumps(' in U(el[1]) and env in U(el[1]) and U(el[1]).endswith('.encode()')
+    rr.ob(f'publisher: the wire message is [topic, json(envelope), *{mname}[1:]] - every element after the first travels as its own frame, in order', ok, za.mod, wire, witness=U(wire.value)[:140], key='pub-wire')
+    jd = [c for c in ast.walk(wire.value) if isinstance(c, ast.Call) and U(c.func) in ('json_dumps', 'json.dumps')]
+    rr.ob('publisher: the envelope is ASCII JSON (ensure_ascii left on) so .encode() cannot fail on what the consumer must decode', bool(jd) and all(q.kwarg(c, 'ensure_ascii') is None or U(q.kwarg(c, 'ensure_ascii')) == 'True' for c in jd), za.mod, wire, key='pub-json')
+    order = sorted([n for n in xtra if U(n.value) == f'{mname}[0]'] + [wire], key=lambda n: n.lineno)
+    rr.ob('publisher: the envelope is serialised after element 0 was put into it', order[-1] is wire, za.mod, wire, key='pub-order')
+    # receiver side
+    rebuild = [n for n in walk_scope(za.R_once) if isinstance(n, ast.Assign) and len(n.targets) == 1 and isinstance(n.value, ast.List) and len(n.value.elts) == 2 and isinstance(n.value.elts[1], ast.Starred)
+               and isinstance(n.value.elts[1].value, ast.Subscript) and isinstance(n.value.elts[1].value.slice, ast.Slice)]
+    rr.floor('receiver: message rebuilds in recv_once', len(rebuild), 1, za.mod, za.R_once)
+    for n in rebuild:
+        first, rest = n.value.elts[0], n.value.elts[1].value
+        got = None
+        if isinstance(first, ast.Call) and isinstance(first.func, ast.Attribute) and first.func.attr == 'get' and first.args and q.const_str(first.args[0]):
+            got = first.args[0].value
+        elif isinstance(first, ast.Subscript) and q.const_str(first.slice):
+            got = first.slice.value
+        lo = rest.slice.lower
+        ok = got == key and isinstance(lo, ast.Constant) and lo.value == 2 and rest.slice.upper is None and rest.slice.step is None
+        rr.ob(f'receiver: the message handed on is [envelope[{key!r}], *frames from index 2] (frame 0 is the topic, frame 1 the envelope)', ok, za.mod, n, witness=U(n.value)[:120], key='recv-rebuild')
+        src = U(rest.value)
+        envsrc = [x for x in walk_scope(za.R_once) if isinstance(x, ast.Assign) and any(isinstance(c, ast.Call) and U(c.func) in ('json_loads', 'json.loads') for c in ast.walk(x.value))]
+        okenv = any(f'{src}[1]' in U(x.value) for x in envsrc)
+        rr.ob('receiver: the envelope is decoded from frame 1 of the same wire message', okenv, za.mod, n, witness='; '.join(U(x)[:60] for x in envsrc)[:160], key='recv-envelope')
